@@ -398,7 +398,7 @@ class SimCtl:
             self.reached.set()
             t0 = _time.time()
             while self.sim.run_state != RunState.STOPPING:
-                if _time.time() - t0 > 5:
+                if _time.time() - t0 > 20:
                     self.errors.append("pause rendezvous timed out")
                     return
                 _time.sleep(0.0002)
@@ -447,14 +447,14 @@ class SimCtl:
                 return t
         return None
 
-    def wait_quiescent(self, timeout=4.0):
+    def wait_quiescent(self, timeout=20.0):     # (returns at once when quiescent; generous because checks run under heavy machine load)
         t0 = _time.time()
         while True:
             w = self.worker()
             if w is None:
                 return True
             if w.is_finalized():
-                w.join(1.0)
+                w.join(10.0)
                 return True
             flag = getattr(w, "_SimulatorWorkerThread__wakeup_flag", None)
             if w.is_waiting() and (flag is None or not flag.is_set()):
@@ -519,7 +519,7 @@ class SimCtl:
             if captured:
                 self.events[self.warm_rank] = captured[-1]
             self.subscribe()
-        e["old_worker_dead"] = 1 if (old is None or not old.is_alive() or (old.join(1.0) or not old.is_alive())) else 0
+        e["old_worker_dead"] = 1 if (old is None or not old.is_alive() or (old.join(10.0) or not old.is_alive())) else 0
         return e
 
     def run_cmd(self, name, b=None, pause_after=None):
@@ -537,7 +537,7 @@ class SimCtl:
         if e["res"] == "ok" and pause_after is not None:
             t0 = _time.time()
             hit = False
-            while _time.time() - t0 < 4.0:
+            while _time.time() - t0 < 20.0:
                 if self.reached.wait(0.0005):
                     hit = True
                     break
@@ -578,7 +578,7 @@ class SimCtl:
         w = self.worker()
         e = self._call("Cleanup", self.sim.cleanup, {"a": "Cleanup"})
         if w is not None:
-            w.join(1.5)
+            w.join(10.0)
             e["worker_dead"] = 0 if w.is_alive() else 1
         return e
 
